@@ -63,14 +63,15 @@ macro_rules! group_common {
         fn base() -> Self { <$pt>::BASE }
         fn decode(b: &[u8]) -> Option<Self> { <$pt>::decode(b) }
         fn set_decode_status(b: &[u8]) -> u32 { let mut p = <$pt>::BASE; p.set_decode(b) }
+        // every operator form: value / reference operands on either side, and the assigning forms
         fn add(a: Self, b: Self, v: u32) -> Self {
-            match v & 3 { 0 => a + b, 1 => &a + &b, 2 => a + &b, _ => { let mut r = a; r += b; r } }
+            match v % 6 { 0 => a + b, 1 => &a + &b, 2 => a + &b, 3 => &a + b, 4 => { let mut r = a; r += b; r } _ => { let mut r = a; r += &b; r } }
         }
         fn sub(a: Self, b: Self, v: u32) -> Self {
-            match v & 3 { 0 => a - b, 1 => &a - &b, 2 => a - &b, _ => { let mut r = a; r -= b; r } }
+            match v % 6 { 0 => a - b, 1 => &a - &b, 2 => a - &b, 3 => &a - b, 4 => { let mut r = a; r -= b; r } _ => { let mut r = a; r -= &b; r } }
         }
         fn neg(a: Self, v: u32) -> Self {
-            match v & 1 { 0 => -a, _ => { let mut r = a; r.set_neg(); r } }
+            match v % 3 { 0 => -a, 1 => -&a, _ => { let mut r = a; r.set_neg(); r } }
         }
         fn double(a: Self, v: u32) -> Self {
             match v & 1 { 0 => a.double(), _ => { let mut r = a; r.set_double(); r } }
@@ -78,7 +79,7 @@ macro_rules! group_common {
         fn xdouble(a: Self, n: u32) -> Self { a.xdouble(n) }
         fn mul(a: Self, k: &[u8], v: u32) -> Self {
             let s = <$sc>::decode_reduce(k);
-            match v & 3 { 0 => a * s, 1 => &a * &s, 2 => s * a, _ => { let mut r = a; r *= s; r } }
+            match v % 8 { 0 => a * s, 1 => &a * &s, 2 => s * a, 3 => a * &s, 4 => &a * s, 5 => &s * &a, 6 => { let mut r = a; r *= &s; r } _ => { let mut r = a; r *= s; r } }
         }
         fn mulgen(k: &[u8], v: u32) -> Self {
             let s = <$sc>::decode_reduce(k);
